@@ -1,0 +1,88 @@
+// SPDX-License-Identifier: BSL-1.1 OR Apache-2.0
+//! Lock alias for the row-lock tables of the transaction layer and the
+//! index / DDL locks of the engine.
+//!
+//! In normal builds this is `parking_lot::RwLock`. With the `neumann_verif`
+//! feature it is a thin wrapper whose acquisitions are schedule points for a
+//! deterministic simulator (see `tensor_store::verif_hooks`): the hook is
+//! called before each acquisition and, on a thread the simulator schedules,
+//! the lock is taken with `try_*` in a yield loop, so a holder parked at a
+//! schedule point never blocks the run. Guards are the plain `parking_lot`
+//! guards; everything else is reached through `Deref`.
+
+#[cfg(not(feature = "neumann_verif"))]
+pub(crate) use parking_lot::RwLock;
+
+#[cfg(feature = "neumann_verif")]
+pub(crate) use self::verif_compat::RwLock;
+
+#[cfg(feature = "neumann_verif")]
+mod verif_compat {
+    use std::{
+        fmt,
+        ops::{Deref, DerefMut},
+    };
+
+    use tensor_store::verif_hooks::yield_point;
+
+    pub struct RwLock<T>(parking_lot::RwLock<T>);
+
+    impl<T> RwLock<T> {
+        pub const fn new(t: T) -> Self {
+            Self(parking_lot::RwLock::new(t))
+        }
+
+        pub fn read(&self) -> parking_lot::RwLockReadGuard<'_, T> {
+            if yield_point("rel.lock") {
+                loop {
+                    if let Some(guard) = self.0.try_read() {
+                        return guard;
+                    }
+                    if !yield_point("rel.lock.wait") {
+                        break;
+                    }
+                }
+            }
+            self.0.read()
+        }
+
+        pub fn write(&self) -> parking_lot::RwLockWriteGuard<'_, T> {
+            if yield_point("rel.lock") {
+                loop {
+                    if let Some(guard) = self.0.try_write() {
+                        return guard;
+                    }
+                    if !yield_point("rel.lock.wait") {
+                        break;
+                    }
+                }
+            }
+            self.0.write()
+        }
+    }
+
+    impl<T> Deref for RwLock<T> {
+        type Target = parking_lot::RwLock<T>;
+        fn deref(&self) -> &Self::Target {
+            &self.0
+        }
+    }
+
+    impl<T> DerefMut for RwLock<T> {
+        fn deref_mut(&mut self) -> &mut Self::Target {
+            &mut self.0
+        }
+    }
+
+    impl<T: Default> Default for RwLock<T> {
+        fn default() -> Self {
+            Self::new(T::default())
+        }
+    }
+
+    impl<T: fmt::Debug> fmt::Debug for RwLock<T> {
+        fn fmt(&self, f: &mut fmt::Formatter<'_>) -> fmt::Result {
+            self.0.fmt(f)
+        }
+    }
+}
